@@ -143,6 +143,12 @@ pub fn main(args: &Args) -> i32 {
             }
         }
     }
+    // both counts from the overflow-prone values (top powers of two and neighbours)
+    for v in crate::replay::OVERFLOW_PRONE {
+        for w in crate::replay::OVERFLOW_PRONE {
+            cfgs.push((v, w));
+        }
+    }
     for v in [0usize, 1, 2, 65535, 65536, 65537, usize::MAX - 1, usize::MAX, 1 << 32, (1 << 32) + 1, 1 << 63] {
         for w in [0usize, 1, 65535, 65536, usize::MAX] {
             cfgs.push((v, w));
